@@ -384,6 +384,11 @@ func init() {
 				base, reps, suffix := cs(k, "base"), ci(k, "reps"), cs(k, "suffix")
 				text := strings.Repeat(base+"\n", reps) + suffix // newline: a sentence may end inside a comment
 				r := c.crdEnv([]string{"text", "parse"}, []byte(text), nil, 120e9)
+				if r.TimedOut {
+					// nine seconds of work on an idle machine: before anybody calls it a hang it gets a quarter of an hour, alone
+					// (a loaded machine is not a hang -- a false alarm of exactly this kind was seen once under heavy load)
+					r = c.crdEnv([]string{"text", "parse"}, []byte(text), nil, 900e9)
+				}
 				n := 0
 				var t yTree
 				acc := r.Exit == 0 && len(r.Stdout) > 0 && yaml.Unmarshal(r.Stdout, &t) == nil
